@@ -25,7 +25,8 @@ GRAPH_LIBS = LINT_LIBS + ["dora_runtime", "dora_startup"]
 BINS = ["dora", "dora_cannon_compiler"]
 RESTRICTED = bool([x for x in os.environ.get("VERIF_PACKAGES", "").split(",") if x])
 
-HASH_CONT = ("std::collections::hash::map::HashMap", "std::collections::hash::set::HashSet")
+HASH_CONT = ("std::collections::hash::map::HashMap", "std::collections::hash::set::HashSet",
+             "hashbrown::map::HashMap", "hashbrown::set::HashSet")
 ORDER_METHODS = {"iter", "iter_mut", "keys", "values", "values_mut", "into_iter", "drain", "into_keys", "into_values",
                  "retain", "difference", "symmetric_difference", "intersection", "union", "extract_if"}
 HASH_ITER_RE = re.compile(r"std::collections::hash::(map|set)::(Iter|IterMut|IntoIter|Keys|Values|ValuesMut|Drain|"
@@ -294,6 +295,14 @@ class Lint:
                         eff.labels.add("fnref:%s" % short(t))
             elif kind == "asm":
                 eff.labels.add("asm")
+        if eff.hash_targets:
+            # inserting into a container while reading its size hands out insertion-order numbers
+            for c in B.calls:
+                if c.block in blocks and last(c.name or "") == "len" and E.is_keyed_container_fn(c.name or "") \
+                        and c.args and c.args[0][0] in ("c", "m"):
+                    nm = place_name(B, c.args[0][1], defs)
+                    if nm in eff.hash_targets:
+                        eff.labels.add("len-of-container-filled-in-loop:%s" % nm)
         if not whole:
             can_return = set(B.postdominators().keys())
             for b in blocks:
@@ -600,6 +609,10 @@ def find_sites(cg, lint_crates):
                         ty = B.local_ty(a[1][0]).lstrip("&").replace("mut ", "")
                         if ty.startswith(HASH_CONT):
                             out.append((p, B, c, "into-iterable"))
+            if d.endswith("::new_debug") and "fmt::rt::Argument" in d and \
+                    re.match(r"^\[(&'?\S* ?)*(std::collections::hash::(map::HashMap|set::HashSet)|hashbrown::)",
+                             (c.fn or {}).get("g") or ""):
+                out.append((p, B, c, "debug-fmt"))
             txt = n + " " + ((c.fn or {}).get("g") or "")
             if HASH_ITER_RE.search(txt):
                 users.setdefault(p, c)
@@ -710,7 +723,9 @@ def rule_r1(chk, F, cg, ef, reach, entries):
         done.add((p, c.block))
         site_fns.add(p)
         evaluated += 1
-        if kind == "into-iterable":
+        if kind == "debug-fmt":
+            status, tags, labels, notes = "bad", [], {"debug-format-of-hash-container"}, []
+        elif kind == "into-iterable":
             nm = c.name or ""
             if E.is_keyed_container_fn(nm):
                 status, tags, labels, notes = "ok", ["(iii) extend keyed container"], set(), []
@@ -765,7 +780,7 @@ def rule_r1(chk, F, cg, ef, reach, entries):
             if path is None:
                 path = cg.path(e, {p})
         if path:
-            msg += "; reached via " + " → ".join(short(x) for x in path[:1] + path[-4:])
+            msg += "; reached via " + " → ".join(short(x) for x in (path if len(path) <= 5 else path[:1] + path[-4:]))
         r.violation(key, msg, c.where())
     # fail closed: a hash iterator consumed in a function without an attributed site
     for p, c in sorted(users.items()):
@@ -833,30 +848,42 @@ def rule_r2(chk, F, cg, ef, reach):
                     seeds.setdefault("pointer-address", []).append((p, s[1][0], "%s:%d" % (B.file, s[3]), "as usize"))
     tn = Taint(cg, ef)
     total = 0
+    seen_keys = {}
     bad_for = {k: bad for (k, rx, bad) in SOURCES}
     bad_for["pointer-address"] = ("output", "subprocess")
     for kind in sorted(seeds):
         for (p, loc, where, callee) in seeds[kind]:
             total += 1
             live = p in reach
-            hits, nfn, truncated = tn.run([(p, loc)])
+            record_only = not bad_for[kind]
+            hits, nfn, truncated = tn.run([(p, loc)], budget=300 if record_only else 4000)
             key = "%s:%s:%s" % (p, kind, short(callee))
+            seen_keys[key] = seen_keys.get(key, 0) + 1
+            if seen_keys[key] > 1:
+                key += "#%d" % seen_keys[key]
             sinks = sorted(set(h[0] for h in hits))
             r.instance(key, sample={"source": key, "reaches": sinks, "functions touched": nfn, "live": live})
             r.observe("%s %s in %s → %s" % (kind, short(callee), short(p),
                                             ", ".join("%s(%s in %s)" % (h[0], h[2], short(h[1])) for h in hits) or
                                             "no sink"))
-            if truncated:
-                r.violation(key + ":analysis-budget", "taint propagation did not converge within its budget", where)
+            if truncated and record_only:
+                r.observe("%s %s in %s spreads widely (e.g. source-file paths stored in the package); recorded only, "
+                          "not a per-process value" % (kind, short(callee), short(p)))
             if not live:
                 continue
-            for h in hits:
-                if h[0] in bad_for[kind]:
-                    r.violation("%s→%s:%s" % (key, h[0], h[1]),
-                                "a %s value (%s) obtained in %s reaches %s `%s` in %s: the emitted artefact differs "
-                                "from run to run" % (kind, short(callee), short(p), "file contents written by"
-                                                     if h[0] == "output" else "the command line built by", h[2],
-                                                     short(h[1])), h[3])
+            crate = p.split("::", 1)[0]
+            bad = sorted((h for h in hits if h[0] in bad_for[kind]),
+                         key=lambda h: (h[1].split("::", 1)[0] != crate, h[0], h[1]))
+            if bad:
+                r.violation("%s→%s" % (key, "+".join(sorted(set(h[0] for h in bad)))),
+                            "a %s value (%s) obtained in %s reaches %s%s: the emitted artefact differs from run to "
+                            "run" % (kind, short(callee), short(p),
+                                     "; ".join("%s `%s` in %s" % ("file contents written by" if h[0] == "output" else
+                                                                  "the command line built by", h[2], short(h[1]))
+                                               for h in bad[:3]),
+                                     " (and %d more sinks)" % (len(bad) - 3) if len(bad) > 3 else ""), bad[0][3])
+            elif truncated and not record_only:
+                r.violation(key + ":analysis-budget", "taint propagation did not converge within its budget", where)
     if not RESTRICTED:
         r.floor("per-process sources examined", total, 12)
     return seeds
